@@ -28,7 +28,6 @@ package main
 // concurrent prune; which of A/B "latest" resolves to.
 
 import (
-	"bytes"
 	"context"
 	"crypto/sha256"
 	"encoding/hex"
@@ -296,11 +295,32 @@ func c14Readers() []c14Reader {
 			}
 			return nil, "", view
 		}},
-		{"diff-s1-latest", func(r *c14Run) (error, string, string) {
+		{"snapshots+diff-s1-newest", func(r *c14Run) (error, string, string) {
 			g := r.rgopts
 			g.JSON = true
+			// diff takes no "latest": like a script would, list the snapshots first and diff S1
+			// against the newest one listed
+			lst, err := vRun(g, func(ctx context.Context, gopts global.Options) error {
+				return runSnapshots(ctx, SnapshotOptions{}, gopts, []string{}, gopts.Term)
+			})
+			if err != nil {
+				return fmt.Errorf("snapshots: %w", err), "", ""
+			}
+			var sns []struct {
+				ID   string    `json:"id"`
+				Time time.Time `json:"time"`
+			}
+			if err := json.Unmarshal([]byte(lst.Stdout), &sns); err != nil || len(sns) == 0 {
+				return nil, fmt.Sprintf("snapshots --json output unusable (%v): %s", err, tail(lst.Stdout, 200)), ""
+			}
+			newest := sns[0]
+			for _, sn := range sns {
+				if sn.Time.After(newest.Time) {
+					newest = sn
+				}
+			}
 			out, err := vRun(g, func(ctx context.Context, gopts global.Options) error {
-				return runDiff(ctx, DiffOptions{}, gopts, []string{r.w.s1.String(), "latest"}, gopts.Term)
+				return runDiff(ctx, DiffOptions{}, gopts, []string{r.w.s1.String(), newest.ID}, gopts.Term)
 			})
 			if err != nil {
 				return err, "", ""
@@ -676,11 +696,16 @@ func TestVerifC14(t *testing.T) {
 						grid = append(grid, p)
 					}
 				}
-				add(jk{J + 1, 1})
+				// the column k=1 completely: the writer has written nothing yet and does ALL its work while
+				// the reader is held before its j-th operation (the widest window for "listed but not
+				// indexed"); plus corners and a PRNG sample of the rest of the grid
+				for j := 1; j <= J+1; j++ {
+					add(jk{j, 1})
+				}
 				add(jk{1, K})
 				add(jk{J + 1, K})
-				for len(grid) < 14 {
-					add(jk{rng.Range(1, J+1), rng.Range(1, K+1)})
+				for n := len(grid) + 8; len(grid) < n; {
+					add(jk{rng.Range(1, J+1), rng.Range(2, K+1)})
 				}
 			}
 			for _, p := range grid {
@@ -724,5 +749,4 @@ func TestVerifC14(t *testing.T) {
 			w.e.Cleanup()
 		}
 	}
-	_ = bytes.MinRead
 }
